@@ -29,7 +29,9 @@ type PreJob struct {
 }
 
 var retentionCounts = []int{0, 0, 1, 2, 3, 5}
-var retentionPeriods = []time.Duration{0, 0, time.Hour, 24 * time.Hour}
+// (20 ms: every job of the history outlives it - jobs that wait or run must stay all the same, and a finished job
+// that was older than the period when the save began must be gone)
+var retentionPeriods = []time.Duration{0, 0, time.Hour, 24 * time.Hour, 20 * time.Millisecond}
 
 // agesFor returns ages that are at least 25% away from every period boundary in use.
 var preAges = []time.Duration{time.Minute, 30 * time.Minute, 2 * time.Hour, 12 * time.Hour, 30 * time.Hour, 72 * time.Hour}
@@ -131,10 +133,12 @@ func (m *Machine) ActSaveRetention(t *rapid.T) {
 	logs0 := logState(m.w.LogDir)
 	defs := m.w.Defs
 	m.stimulus("save (retention)")
+	// ages are judged at the instant before the save: whatever was older than the period then is older still when the
+	// runner looks
+	now := time.Now()
 	atomic.AddInt32(&m.mem.Explicit, 1)
 	m.w.PR.SaveToStore()
 	atomic.AddInt32(&m.mem.Explicit, -1)
-	now := time.Now()
 	s1 := m.settle("save")
 	logs1 := logState(m.w.LogDir)
 	m.w.Stats.hit("save")
